@@ -16,7 +16,7 @@ RULE = ("seeded programs (chains / DAGs of 1-16 ops over the mapped and unmapped
         "Linear/Embedding weights and biases and the untouched original are checked separately; programs include gating products "
         "h*g(linear(h)) in both operand orders and PARALLEL residual branches; 'replace' cases (run FIRST in every worker, so leaked "
         "state would show in later programs) check that user "
-        "replacements win. Non-trivial = program contains a mapped op or an addition; distinct = emitted source text. 'root' cases: the module handed to unit_scale() is ITSELF a torch.nn class (nn.Sequential of layers, nested Sequentials, a bare nn.Linear) compared with a hand-written recipe. The matrix product is emitted as torch.matmul(a, b) or a @ b; nn.Conv1d and non-default wrapper options (GELU tanh, Softmax dim, LayerNorm eps / no affine, Embedding padding_idx) are among the torch.nn wrappers; dimensions include square projections, batch == sequence length, a single sequence / token.")
+        "replacements win. Non-trivial = program contains a mapped op or an addition; distinct = emitted source text. 'root' cases: the module handed to unit_scale() is ITSELF a torch.nn class (nn.Sequential of layers, nested Sequentials, a bare nn.Linear) compared with a hand-written recipe. The matrix product is emitted as torch.matmul(a, b) or a @ b; nn.Conv1d and non-default wrapper options (GELU tanh, Softmax dim, LayerNorm eps / no affine, Embedding padding_idx) are among the torch.nn wrappers; dimensions include square projections, batch == sequence length, a single sequence / token. A third of the cases call the converted module again under torch.no_grad(); a quarter make a rejected call first.")
 ASSUMPTIONS = ["unit_scaling.functional ops are as established by C01-C06 (the reference calls them)", "programs that Dynamo splits into several graphs are excluded and counted"]
 IMPORTS = ["unit_scaling.transforms", "unit_scaling.transforms._unit_scale", "unit_scaling.transforms.utils", "unit_scaling.functional"]
 REQUIRED_MONITORS = ["programs:transformed", "outputs:compared", "grads:compared", "reinit:checked", "replace:checked"]
